@@ -582,3 +582,29 @@ Fixpoint index_of_ev (e : ev) (l : list ev) (i : nat) : option nat :=
               | _, _ => index_of_ev e r (S i)
               end
   end.
+
+(* ---- which branch of load_or_init_model a configuration takes (gen/SaveIR.v resume_branches) ----------
+   `resume` above is the run_dir branch (config.run_dir set, no load_model); `choose_branch` reads from the
+   regenerated source which branch runs for any configuration: the first whose conditions all hold. *)
+Definition rcond_holds (run_dir load_model exists_latest : bool) (c : rcond) : bool :=
+  match c with
+  | CRunDir => run_dir | CNotRunDir => negb run_dir
+  | CLoadModel => load_model | CNotLoadModel => negb load_model
+  | CExistsLatest => exists_latest
+  end.
+Fixpoint choose_branch_in (bs : list (list rcond * ract)) (run_dir load_model exists_latest : bool) : option ract :=
+  match bs with
+  | [] => None
+  | (cs, a) :: r => if forallb (rcond_holds run_dir load_model exists_latest) cs then Some a
+                    else choose_branch_in r run_dir load_model exists_latest
+  end.
+Definition choose_branch := choose_branch_in resume_branches.
+Definition ract_eqb (a b : option ract) : bool :=
+  match a, b with
+  | Some ALoadState, Some ALoadState | Some ALoadInitial, Some ALoadInitial | Some AInitWeights, Some AInitWeights => true
+  | None, None => true
+  | _, _ => false
+  end.
+(* one observed start of a run: config.run_dir set?, config.load_model set?, does run_dir/latest exist, what ran *)
+Definition branch_case_ok (c : bool * bool * bool * option ract) : bool :=
+  let '(rd, lm, ex, act) := c in ract_eqb (choose_branch rd lm ex) act.
